@@ -47,6 +47,7 @@ pub struct Weights {
     pub snapshot: u32,
     pub restart: u32,
     pub hold_signer: u32,
+    pub hold_parent_syncs: u32,
     pub check: u32,
     /// maximal single clock advance in seconds
     pub max_advance: u32,
@@ -79,6 +80,7 @@ impl Default for Weights {
             snapshot: 1,
             restart: 0,
             hold_signer: 0,
+            hold_parent_syncs: 0,
             check: 5,
             max_advance: 14 * 86400,
         }
@@ -231,6 +233,7 @@ pub fn op_strategy(w: &Weights, n_cas: usize, cfg: &WorldCfg, edges: &[(u8, u8)]
     add(w.snapshot, Just(Op::Snapshot).boxed());
     add(w.restart, Just(Op::Restart).boxed());
     add(w.hold_signer, any::<bool>().prop_map(|on| Op::HoldSigner { on }).boxed());
+    add(w.hold_parent_syncs, prop_oneof![3 => Just(true), 1 => Just(false)].prop_map(|on| Op::HoldParentSyncs { on }).boxed());
     add(w.check, Just(Op::Check).boxed());
     proptest::strategy::Union::new_weighted(opts).boxed()
 }
@@ -312,6 +315,11 @@ pub fn setup_strategy(max_cas: usize) -> BoxedStrategy<(usize, Vec<Op>, Vec<(u8,
                 masks.push(mask);
                 ops.push(Op::Attach { ca: i as u8, parent, res: mask });
                 edges.push((parent, i as u8));
+                if parent != 0 && r3 % 3 == 0 {
+                    // the child knows the resource class under another name
+                    // (only possible before it received a certificate)
+                    ops.push(Op::ChildMapping { parent, child: i as u8, rcn: 0, name: (r3 % 3) as u8 });
+                }
                 ops.push(Op::Quiesce);
                 if i > 0 && second < 3 {
                     // second parent: another earlier CA or the TA
